@@ -341,7 +341,7 @@ def na_base(rng, setup):
     kn = flat.Knobs(max_models=2, p_unknown_event=0.0, max_history=4, p_queued=0.0, max_states=5, max_events=2)
     d = flat.gen_flat(rng, kn)
     d.model_attr = 'state'
-    d.qmode = rng.choice([0, 0, 1])
+    d.qmode = rng.choice([0, 0, 1, 2] if setup[3] else [0, 0, 1])      # async: also queued='model'
     d.queued = bool(d.qmode)
     d.kinds = {}
     d.const = {}
@@ -491,7 +491,7 @@ def na_judge(case):
                 dc.script[(cid, k)] = base.script[(cid, k)]
             clean_v = na_run(dc, setup)
             npos += 1
-            info = {'setup': setup[0], 'pos': pos, 'slot': common.SLOTS[it[1]], 'handlers': with_h, 'queued': bool(d.qmode)}
+            info = {'setup': setup[0], 'pos': pos, 'slot': common.SLOTS[it[1]], 'handlers': with_h, 'queued': aflat.QMODES[d.qmode] if setup[3] else bool(d.qmode)}
             fs = [(w, dict(dd, **info)) for w, dd in na_oracle(d, setup, clean_v.items, crash.items, cid, k, handlers)]
             if crash.bad:
                 fs.append(('arguments', dict(info, bad=crash.bad[:3])))
@@ -701,56 +701,18 @@ def nm_parse(ans):
     return items, nested.dec_svals([int(x) for x in c.split()]), [int(x) for x in q.split()]
 
 
-_SCOPE_DEFECT = []
-
-
-def nm_scope_defect_present():
-    """does the tree under test reproduce finding F-C04N-reentrant-scope-name?  (20-line probe on the plain API: a
-    trigger issued from the enter callback of A_B_C whose transition re-enters A_B through `initial` descent)"""
-    if not _SCOPE_DEFECT:
-        from transitions.extensions import HierarchicalMachine
-
-        class Probe(object):
-            n = 0
-
-            def enter_c(self):
-                self.n += 1
-                if self.n == 3:
-                    self.go()
-        states = [{'name': 'A', 'initial': 'B',
-                   'children': [{'name': 'B', 'initial': 'C', 'children': [{'name': 'C', 'on_enter': 'enter_c'}]}],
-                   'transitions': [['go', 'B_C', 'B']]}]
-        m = Probe()
-        HierarchicalMachine(m, states=states, initial='A')
-        try:
-            m.go()
-            m.go()
-            m.go()
-            _SCOPE_DEFECT.append(False)
-        except ValueError:
-            _SCOPE_DEFECT.append(True)
-    return _SCOPE_DEFECT[0]
-
-
 class NMRun(nested.NestedRun):
-    """NestedRun that notes when a callback triggers an event on an unqueued machine while the naming scope of some
-    state is set (`NestedState._scope` non-empty: that state's scoped_enter / scoped_exit is in progress) — the corner
-    of finding F-C04N-reentrant-scope-name, which the engine model does not cover"""
+    """NestedRun that notes (for the evidence only) when a callback triggers an event on an unqueued machine while
+    (a) the naming scope of some state is set (`NestedState._scope` non-empty: that state's scoped_enter / scoped_exit
+    is in progress) or (b) the machine is inside a nested scope (`prefix_path` non-empty: a callback of a locally
+    declared transition) — the two corners in which this stream found the defects fixed by 4b06f60 and 84867c8
+    (`NestedState._scope` and the scope stack are not part of the engine model; the comparison is strict everywhere)"""
 
     def __init__(self, *a, **kw):
         self.depth = 0
         self.scope_live = []
-        self.rejected_trees = []       # state values the engine built itself and its own `set_state` then rejected
+        self.scoped_reentry = 0
         nested.NestedRun.__init__(self, *a, **kw)
-        orig = self.machine.set_state
-
-        def set_state(state, model=None):
-            try:
-                return orig(state, model)
-            except ValueError:
-                self.rejected_trees.append(repr(state)[:200])
-                raise
-        self.machine.set_state = set_state
 
     def _scoped_states(self):
         out = []
@@ -769,6 +731,8 @@ class NMRun(nested.NestedRun):
             live = self._scoped_states()
             if live:
                 self.scope_live.append((self.next_tag, live))
+            if getattr(self.machine, 'prefix_path', None):
+                self.scoped_reentry += 1
         self.depth += 1
         try:
             return nested.NestedRun.trigger(self, ev)
@@ -836,19 +800,6 @@ def nm_judge(case, d, hm, err, other, oerr, fresh, ferr, answers):
     if hm.bad:
         fail('monitor', 'nested-recorder:' + hm.bad[0][0], {'bad': hm.bad[:4]}, sig='C04.nested.' + hm.bad[0][0])
     m = nm_parse(answers[0])
-    if hm.scope_live and nm_scope_defect_present() and m is not None:
-        # the corner of the open finding F-C04N-reentrant-scope-name (outside the engine model: `_scope` is not
-        # modelled).  Narrow: a re-entrant call was issued while a naming scope was live AND `_update_model` was
-        # handed a state value that `set_state` rejected (a name that is no registered state — the engine built it
-        # itself) AND the trace departs from the model's.  Only the finding is reported then; any other divergence in
-        # this corner is judged like everywhere else.
-        if hm.rejected_trees and (m[0] != hm.items or m[1] != hm.states_after):
-            fail('monitor', 'nested-reentrant-scope-name', {
-                'reentrant_calls_with_a_live_scope': [[t, l] for t, l in hm.scope_live[:4]],
-                'state_values_rejected_by_set_state': hm.rejected_trees[:3],
-                'impl_trace': [common.show_item(i) for i in hm.items[:120]], 'states': hm.states_after},
-                sig='C04.nested.scope-reentrancy')
-            return out
     if m is not None:
         items, vals, _q = m
         if items != hm.items or vals != hm.states_after:
@@ -965,7 +916,8 @@ def nm_chunk(seed, idx, nbase, tier):
                              ('class', 'nested-model:' + str(case['cls'])), ('handlers', str(info['handlers'])),
                              ('exc', info['exc']), ('second_fault', str(info['extra'])), ('queued', str(d.queued)),
                              ('nested_reentrant', str(any(v[0] for v in d.script.values()))),
-                             ('nested_reentrant_with_live_scope', str(bool(hm is not None and hm.scope_live)))):
+                             ('nested_reentrant_with_live_naming_scope', str(bool(hm is not None and hm.scope_live))),
+                             ('nested_reentrant_inside_nested_scope', str(bool(hm is not None and hm.scoped_reentry)))):
                 h = ex.stats.setdefault(key, {})
                 h[val] = h.get(val, 0) + 1
             if hm is not None:
@@ -1105,8 +1057,27 @@ _replay2 = C04.replay
 _search2 = C04.search
 
 
+def nm_corpus():
+    """regression cases of this stream (corpus/C04/*.json): witnesses of the two repaired re-entrancy defects"""
+    import glob
+    import json
+    import os
+    out = []
+    for path in sorted(glob.glob(os.path.join(common.CORPUS, 'C04', '*.json'))):
+        with open(path) as fh:
+            payload = json.load(fh)
+        if payload.get('case', {}).get('nm'):
+            out.append(payload['case'])
+    return out
+
+
 def _explore_nm(self, tier, seed):
     ex = _explore2(self, tier, seed)
+    corpus = nm_corpus()
+    for case, (fs, _hm) in zip(corpus, nm_eval(corpus)):
+        ex.evaluations += 1
+        ex.traces_validated += 1
+        ex.failures += fs
     nch, per = (16, 10) if tier == 'quick' else (32, 32)
     part_ex = Exploration()
     for part in runner.parallel(nm_chunk, [(seed, i, per, tier) for i in range(nch)]):
